@@ -860,8 +860,15 @@ def parse_recipe(
     update_passthrough_fields: T.Sequence[str] = (),
 ) -> ParseResult:
     context = ParseContext()
-    objects = parse_file(stream, context)  # parse the yaml without semantics
-    statements = parse_statement_list(objects, context)
+    try:
+        objects = parse_file(stream, context)  # parse the yaml without semantics
+        statements = parse_statement_list(objects, context)
+    except RecursionError as e:
+        # PyYAML and this parser are recursive: nesting is limited by Python's stack
+        name = getattr(stream, "name", None)
+        raise exc.DataGenSyntaxError(
+            "The recipe is nested too deeply", name if isinstance(name, str) else None
+        ) from e
     tables = context.table_infos
     tables = {
         name: value
